@@ -104,9 +104,20 @@ class Ctx:
 
 def load_known_findings():
     p = os.path.join(VERIF, "known_findings.json")
-    if not os.path.exists(p):
-        return []
-    return json.load(open(p)).get("findings", [])
+    out = []
+    if os.path.exists(p):
+        out = list(json.load(open(p)).get("findings", []))
+    # builders park entries here until the coordinator folds them into known_findings.json
+    pd = os.path.join(VERIF, "pending")
+    if os.path.isdir(pd):
+        for fn in sorted(os.listdir(pd)):
+            if fn.endswith(".findings.json"):
+                try:
+                    j = json.load(open(os.path.join(pd, fn)))
+                    out += j if isinstance(j, list) else j.get("findings", [])
+                except Exception:
+                    pass
+    return out
 
 
 # --------------------------------------------------------------------------- Go side
